@@ -37,15 +37,18 @@ type unit struct {
 	exact string // custom property: exact value text
 }
 
+var hashTwins = map[string]string{"margin-brbxl": "margin-xscrz", "margin-xscrz": "margin-brbxl", "margin-nckxl": "margin-pdtrz", "margin-pdtrz": "margin-nckxl", "margin-brbxw": "margin-xscra", "margin-xscra": "margin-brbxw"}
+
 type sheetgen struct {
-	deep int // values with deeply nested brackets
-	t      *rapid.T
-	src    strings.Builder
-	units  []unit
-	inline bool
-	depth  int
-	nested int
-	wsdec  int
+	nextProp string // the name of the next declaration (the twin of the one before)
+	deep     int    // values with deeply nested brackets
+	t        *rapid.T
+	src      strings.Builder
+	units    []unit
+	inline   bool
+	depth    int
+	nested   int
+	wsdec    int
 }
 
 func (g *sheetgen) w(s string) { g.src.WriteString(s) }
@@ -99,7 +102,9 @@ func lower(s string) string {
 }
 
 func ident(t *rapid.T) string {
-	return rapid.SampledFrom([]string{"a", "b", "div", "red", "screen", "and", "bold", "x-y", "_z", "Sans", "from", "to", "not", "only", "print", "solid", "auto", "inherit"}).Draw(t, "ident")
+	return rapid.SampledFrom([]string{"a", "b", "div", "red", "screen", "and", "bold", "x-y", "_z", "Sans", "from", "to", "not", "only", "print", "solid", "auto", "inherit",
+		// identifiers written with escapes: the whitespace that ends a hexadecimal escape (a CR LF pair counts as one) is part of the identifier
+		"a\\26\r\nb", "\\41\r\nx", "b\\9\tc", "c\\000041d", "e\\+f", "\\31 0"}).Draw(t, "ident")
 }
 
 // components writes a token sequence with whitespace decisions and returns the expected components
@@ -357,7 +362,14 @@ func (g *sheetgen) declaration(last bool) {
 	}
 	prop := rapid.SampledFrom([]string{"color", "margin", "font-family", "background", "width", "-webkit-x", "transition",
 		// letters outside ASCII have no other case as far as CSS is concerned (the Kelvin sign is not a k)
-		"École", "wİdth", "Kerning", "größe", "ΑΒγ", "-Ö-x"}).Draw(t, "prop")
+		"École", "wİdth", "Kerning", "größe", "ΑΒγ", "-Ö-x",
+		// names of equal length whose 32-bit FNV-1a resp. FNV-1 hashes are equal (a table that trusts a hash tells them apart only by luck)
+		"margin-brbxl", "margin-xscrz", "margin-nckxl", "margin-pdtrz", "margin-brbxw", "margin-xscra"}).Draw(t, "prop")
+	if g.nextProp != "" {
+		prop, g.nextProp = g.nextProp, ""
+	} else if partner, ok := hashTwins[prop]; ok && rapid.Bool().Draw(t, "twin") {
+		g.nextProp = partner // the next declaration is named like its twin
+	}
 	written := randCase(t, prop)
 	prop = lower(written)
 	hack := rapid.IntRange(0, 9).Draw(t, "iehack") == 0
